@@ -319,8 +319,10 @@ theorem ee_agRegister (s : State) (n : String) (es : List Ev) (v : String) : EE 
     (try have hAG3 := ee_runAgInstrs' "" { s with nextSerial := s.nextSerial + 1 } { name := n, ext := false, serial := s.nextSerial } ‹List (Instr ExtState)›) <;>
     simp_all [EE]
 
-theorem eeO_wakeAgent (s : State) : EEO s (wakeAgent s) := by
+theorem eeO_wakeAgent (l : Bool) (s : State) : EEO s (wakeAgent l s) := by
   unfold wakeAgent; splits <;> simp_all [EE]
+theorem eeO_renderWoken (l : Bool) (s : State) : EEO s (renderWoken l s) := by
+  unfold renderWoken; splits <;> simp_all [EE]
 
 theorem ee_watchOne (s : State) (full : String) (z : Bool) : EE s (watchOne s full z) := by
   unfold watchOne
@@ -510,34 +512,38 @@ theorem einvO_platformMove {c : Nat × Nat × Nat} (lifo : Bool) (s : State) (i 
     obtain ⟨f, _, hm⟩ := firstSome_spec _ _ _ hs
     exact EInvO.of_eeO i (eeO_flightMove s f) s' hm
 
-theorem einvO_wakeMove {c : Nat × Nat × Nat} (s : State) (i : EInv c s) : EInvO c (wakeMove s) := by
+theorem einvO_wakeMove {c : Nat × Nat × Nat} (l : Bool) (s : State) (i : EInv c s) : EInvO c (wakeMove l s) := by
   intro s' hs
   unfold wakeMove orElse' at hs
   split at hs
   · rename_i x hx; cases hs; exact einv_of_ee (ee_wakeRt hx) i
-  · exact EInvO.of_eeO i (eeO_wakeAgent s) s' hs
+  · exact EInvO.of_eeO i (eeO_wakeAgent l s) s' hs
 
 theorem einvO_progress {c : Nat × Nat × Nat} (v : Nat) (s : State) (i : EInv c s) : EInvO c (progress v s) := by
   have hp := fun l => einvO_platformMove (c := c) l s i
-  have hw := einvO_wakeMove s i
+  have hw := fun l => einvO_wakeMove (c := c) l s i
+  have hr := fun l => EInvO.of_eeO i (eeO_renderWoken l s)
   have hk := EInvO.of_eeO i (eeO_killMove s)
   unfold progress
   splits <;> first
     | exact einvO_none
     | (rw [einvO_some]; refine einv_of_ee (EE.trans' ?_ (ee_watchOne _ _ _)) i; simp [EE])
-    | exact einvO_orElse' hw (einvO_orElse' (hp _) hk)
-    | exact einvO_orElse' (hp _) (einvO_orElse' hw hk)
-    | exact einvO_orElse' (hp _) (einvO_orElse' hk hw)
+    | exact einvO_orElse' (einvO_orElse' (hw _) (einvO_orElse' (hp _) hk)) (hr _)
+    | exact einvO_orElse' (einvO_orElse' (hp _) (einvO_orElse' (hw _) hk)) (hr _)
+    | exact einvO_orElse' (einvO_orElse' (hp _) (einvO_orElse' hk (hw _))) (hr _)
+    | exact einvO_orElse' (hr _) (einvO_orElse' (hw _) (einvO_orElse' (hp _) hk))
+    | exact einvO_orElse' (hr _) (einvO_orElse' (hp _) (einvO_orElse' (hw _) hk))
+    | exact einvO_orElse' (hr _) (einvO_orElse' (hp _) (einvO_orElse' hk (hw _)))
 
 theorem einv_settle {c : Nat × Nat × Nat} (v n : Nat) (s : State) (i : EInv c s) : EInv c (settle v n s) := by
-  induction n generalizing s with
+  induction n generalizing v s with
   | zero => exact i
   | succ n ih =>
     unfold settle
     split
     · exact i
     · rename_i s' hp
-      exact ih s' (einvO_progress v s i s' hp)
+      exact ih _ s' (einvO_progress v s i s' hp)
 
 theorem ee_applyOp (s : State) (o : Op) : EE s (applyOp s o) := by
   cases o with
